@@ -692,6 +692,55 @@ def _analyze_expansion_part(
     return decisions
 
 
+def _find_cmdsub_end(s: str, start: int) -> tuple[int, bool]:
+    """Find the ')' closing the '$(' whose body starts at `start`.
+
+    Returns (index just past the closing paren, or -1 if there is none; reliable).
+    Quotes and backslash escapes are skipped, plain '(' nest like '$('.  `reliable`
+    is False when the body contains something this scanner cannot delimit the way
+    bash does (a '#' comment, a substitution inside double quotes, an unterminated
+    quote): the caller must not trust the extracted text.
+    """
+    depth = 1
+    reliable = True
+    j = start
+    n = len(s)
+    while j < n and depth > 0:
+        c = s[j]
+        if c == "\\":
+            j += 2
+        elif c == "'":
+            k = s.find("'", j + 1)
+            if k < 0:
+                return -1, False
+            j = k + 1
+        elif c == '"':
+            k = j + 1
+            while k < n and s[k] != '"':
+                if s[k] == "\\":
+                    k += 1
+                elif s[k] == "`" or s[k : k + 2] == "$(":
+                    reliable = False
+                k += 1
+            if k >= n:
+                return -1, False
+            j = k + 1
+        elif c == "#" and (j == start or s[j - 1] in " \t\n;(&|"):
+            reliable = False
+            j += 1
+        elif c == "(":
+            depth += 1
+            j += 1
+        elif c == ")":
+            depth -= 1
+            j += 1
+        else:
+            j += 1
+    if depth != 0:
+        return -1, reliable
+    return j, reliable
+
+
 def _analyze_string_cmdsubs(
     s: str, config: Config, cwd: Path, *, remote: bool = False
 ) -> list[Decision]:
@@ -701,22 +750,15 @@ def _analyze_string_cmdsubs(
     while i < len(s):
         # Look for $( pattern
         if s[i : i + 2] == "$(":
-            # Find matching closing paren, accounting for nesting
-            depth = 1
+            # Find matching closing paren, accounting for nesting, quotes and escapes
             start = i + 2
-            j = start
-            while j < len(s) and depth > 0:
-                if s[j : j + 2] == "$(":
-                    depth += 1
-                    j += 2
-                elif s[j] == ")":
-                    depth -= 1
-                    j += 1
-                else:
-                    j += 1
-            if depth == 0:
+            j, reliable = _find_cmdsub_end(s, start)
+            if j >= 0:
                 inner_cmd = s[start : j - 1]
                 inner_decision = analyze(inner_cmd, config, cwd, remote=remote)
+                if not reliable and inner_decision.action == "allow":
+                    # The text could not be delimited the way bash does it: do not vouch for it
+                    inner_decision = Decision("ask", f"unanalyzable text: {inner_cmd}")
                 if inner_decision.action != "allow":
                     decisions.append(
                         Decision(
@@ -729,6 +771,8 @@ def _analyze_string_cmdsubs(
                     decisions.append(inner_decision)
                 i = j
             else:
+                if not reliable:
+                    decisions.append(Decision("ask", f"cmdsub: unanalyzable text: {s[i:]}"))
                 i += 1
         # Look for backtick pattern
         elif s[i] == "`":
@@ -739,6 +783,9 @@ def _analyze_string_cmdsubs(
             if j < len(s):
                 inner_cmd = s[i + 1 : j]
                 inner_decision = analyze(inner_cmd, config, cwd, remote=remote)
+                if "\\" in inner_cmd and inner_decision.action == "allow":
+                    # Escapes change where the substitution ends: do not vouch for it
+                    inner_decision = Decision("ask", f"unanalyzable text: {inner_cmd}")
                 if inner_decision.action != "allow":
                     decisions.append(
                         Decision(
